@@ -21,6 +21,13 @@ fn expire(scn: &Value) -> Value {
     let mut rep = Replica::new(InMemoryStorage::new());
     let mut ops = Operations::new();
     let mut ids = Vec::new();
+    // the crate reads the real clock: canonical integer timestamps are shifted by (real now - scenario now) so that
+    // every age is exactly the one of the solver model, however long after the model the replay runs
+    let real_now = std::time::SystemTime::now()
+        .duration_since(std::time::UNIX_EPOCH)
+        .map(|d| d.as_secs() as i64)
+        .unwrap_or(0);
+    let shift = scn.get("now").and_then(|n| n.as_i64()).map(|n| real_now - n).unwrap_or(0);
     for t in scn["tasks"].as_array().cloned().unwrap_or_default() {
         let un = t["uuid"].as_u64().unwrap();
         let uuid = uuid_of(un);
@@ -28,6 +35,15 @@ fn expire(scn: &Value) -> Value {
         ops.push(Operation::Create { uuid });
         for key in ["status", "modified"] {
             if let Some(v) = t[key].as_str() {
+                let mut v = v.to_string();
+                if key == "modified" {
+                    if let Ok(n) = v.parse::<i64>() {
+                        if n.to_string() == v && n.abs() < 1_000_000_000_000 {
+                            v = (n + shift).to_string();
+                        }
+                    }
+                }
+                let v = v.as_str();
                 ops.push(Operation::Update {
                     uuid,
                     property: key.to_string(),
